@@ -478,8 +478,35 @@ def derivs_run(case, ctx):
             ctx.fail("spelling/removal", "observe(%r) then observe(%r, remove=True) left notifiers behind" % (spellings[i], spellings[j]))
 
 
+# ----------------------------------------------------------------------------- stage fuzz (thorough): atheris on the parser
+FUZZ_ALPH = ["a", "b", "items", "+", "*", ".", ":", ",", "[", "]", " ", "1", "_", "i", "\u00e9", "\t"]
+
+
+def fuzz_decode(data):
+    return "".join(FUZZ_ALPH[b % 16] for b in bytes(data)[:24])
+
+
+def fuzz_target(data, ctx):
+    s = fuzz_decode(data)
+    p = judge_string(s, ctx)
+    if p:
+        ctx.fail(p[0], p[1])
+    if len(s) > 6:
+        ctx.nontrivial(key=s, sample={"s": s})
+
+
+def fuzz_replay(case, ctx):
+    fuzz_target(bytes.fromhex(case["bytes_hex"]), ctx)
+
+
 def stages(tier):
-    return [
+    extra = []
+    if tier == "thorough":
+        extra.append({"name": "fuzz", "kind": "fuzz", "target": fuzz_target, "run": fuzz_replay, "shards": 8, "max_len": 24,
+                      "runs": {"quick": 20000, "thorough": 2000000},
+                      "seeds": [bytes([0, 5, 1]), bytes([7 + 1, 0, 7, 1, 9, 6, 2]), bytes([2, 5, 3, 0])],
+                      "instrument": ["traits.observation"]})
+    return extra + [
         {"name": "strings", "kind": "enum", "batch": True, "gen": strings_gen, "run": strings_run, "shards": 16, "exhaustive": True},
         {"name": "derivs", "kind": "hyp", "strategy": derivs_strategy, "run": derivs_run,
          "examples": {"quick": 4000, "thorough": 100000}, "shards": 16},
